@@ -1,8 +1,9 @@
 """C20 — command line overrides pyproject, which overrides defaults.
 
 Tie B: the real `rattr.cli.parse_arguments` (in-process, in generated project directories outside
-/verif and /repo) vs the Lean model `Cli.parseArguments` on the same (argv, TOML files / explicit
-conf, directory layout); a sample is re-run through the real CLI (`python -m rattr`). The property
+/verif and /repo) vs the Lean model `Cli.parseArgumentsX` (= `Cli.parseArguments` behind argparse's
+own tokeniser, RattrModel/Argv.lean) on the same (argv in any spelling, TOML files / explicit conf,
+directory layout); a sample is re-run through the real CLI (`python -m rattr`). The property
 oracle is the Lean `Spec.effective` / `Spec.acceptable` (cross-checked against an independent
 Python re-statement; disagreement = internal error) applied to the implementation's namespace.
 """
@@ -27,6 +28,9 @@ from pathlib import Path, PurePath
 
 import common
 import impl
+
+from props import c20_argv
+from tables import t_c20
 
 from rattr.cli import parser as P
 from rattr.cli.toml import TOMLDecodeError
@@ -128,7 +132,10 @@ def toml_states(f):
         st += [("valid", ["m\\.n", "zed"], True), ("valid-empty", [], True), ("valid-numeric-text", ["12"], True),
                ("invalid-type:str", "a", False), ("invalid-type:list-int", ["a", 1], False),
                ("invalid-type:bool", True, False), ("invalid-type:table", {"k": 1}, False),
-               ("valid-dash", ["-x"], True), ("valid-empty-item", [""], True), ("valid-empty-and-more", ["", "zed"], True)]
+               ("valid-dash", ["-x"], True), ("valid-empty-item", [""], True), ("valid-empty-and-more", ["", "zed"], True),
+               # dash-words through argparse's tokeniser (the TOML pass re-tokenises every string):
+               ("valid-dash-cluster", ["-Hc"], True), ("valid-dash-negative-decimal", ["-1.5"], True),
+               ("valid-dash-with-space", ["-z y"], True), ("valid-dash-option-with-space", ["a", "-x y"], True)]
     elif f["doc_type"] == "int":
         good = [c for c in (f["choices"] or [3, 0, 9]) if c != f["default"]]
         st += [("valid", good[-1], True), ("invalid-type:str", "2", False), ("invalid-type:float", 1.5, False),
@@ -175,9 +182,12 @@ VISIBLE_ENVS = [e for e in ENVS if e[0] == "dict" or e[1] == "exists" or e[2] in
 
 # ------------------------------------------------------------------ cases
 
-def make_case(facts, assign, env, rng, *, decoy=None, unknown=(), broken=None, extra_cli=(), eoe=False):
+def make_case(facts, assign, env, rng, *, decoy=None, unknown=(), broken=None, extra_cli=(), eoe=False,
+              spell=None, arrange=None, config_flag=None):
     """assign: dest -> (cli state, toml state). Builds argv, the main conf (in the source the spec
-    selects) and a decoy conf (in the file the spec does NOT select)."""
+    selects) and a decoy conf (in the file the spec does NOT select).
+    spell: None (canonical tokens) or callable(parts, rng) -> (argv, labels): re-spelling of the groups;
+    arrange: None (random interleaving) or callable(option groups, extra groups, target group) -> parts."""
     mode, cfile, layout = env
     by = {f["dest"]: f for f in facts}
     conf = []
@@ -205,14 +215,34 @@ def make_case(facts, assign, env, rng, *, decoy=None, unknown=(), broken=None, e
     target = ["t.py"]
     extra = [list(x) for x in extra_cli]
     if cfile != "none":
-        extra.append([rng.choice(["-c", "--config"]), "o.toml" if cfile == "exists" else "missing.toml"])
-    parts = list(seq)          # per-option occurrence order must survive: only INSERT the rest
-    for g in extra + [target]:
-        parts.insert(rng.randint(0, len(parts)), g)
-    argv = [t for g in parts for t in g]
-    return {"argv": argv, "conf": conf, "decoy": list(decoy or []), "mode": mode, "cfile": cfile,
+        extra.append([config_flag or rng.choice(["-c", "--config"]), "o.toml" if cfile == "exists" else "missing.toml"])
+    if arrange is not None:
+        parts = arrange(list(seq), extra, target)
+    else:
+        parts = list(seq)          # per-option occurrence order must survive: only INSERT the rest
+        for g in extra + [target]:
+            parts.insert(rng.randint(0, len(parts)), g)
+    labels = []
+    if spell is not None:
+        argv, labels = spell(parts, rng)
+    else:
+        argv = [t for g in parts for t in g]
+    case = {"argv": argv, "conf": conf, "decoy": list(decoy or []), "mode": mode, "cfile": cfile,
             "layout": layout, "broken": broken, "intent": intent, "eoe": eoe,
-            "unknown": [k for k, _ in unknown]}
+            "unknown": [k for k, _ in unknown], "_parts": parts}
+    if spell is not None:
+        case["spelled"] = True
+        case["spelling"] = labels
+        case["canonical_argv"] = [t for g in parts for t in g]
+    return case
+
+
+def respell(case, sp, rng, **kw):
+    """The same command line (same groups in the same order), spelled differently."""
+    c = dict(case)
+    argv, labels = sp.render(case["_parts"], rng, **kw)
+    c.update(argv=argv, spelled=True, spelling=labels, canonical_argv=[t for g in case["_parts"] for t in g])
+    return c
 
 
 def source_of(case):
@@ -312,14 +342,20 @@ _CANON = re.compile(r"^-?(0|[1-9][0-9]*)$")
 
 
 def in_fragment(case, flags):
-    """Canonical tokens only: exact flags; texts that int() accepts must be canonical decimals."""
-    texts = list(case["argv"])
+    """Texts that int() accepts must be canonical decimals (the trusted codec).  Canonical command
+    lines (not re-spelled) additionally use exact flags only — historical; re-spelled ones are
+    judged by the canonical tokens they were made from, hand-written ones are inside the model
+    (RattrModel/Argv.lean models argparse's tokeniser).  TOML strings may be any dash-word: the
+    TOML pass of the model runs the same tokeniser."""
+    argv_texts = [] if case.get("raw_ok") else list(case.get("canonical_argv", case["argv"]))
+    conf_texts = []
     for _, v in case["conf"] + case["decoy"]:
         vs = v if isinstance(v, list) else [v]
-        texts += [x for x in vs if isinstance(x, str)]
-    for t in texts:
+        conf_texts += [x for x in vs if isinstance(x, str)]
+    for t in argv_texts + conf_texts:
         if _INT_LIKE.match(t) and not (_CANON.match(t) and t != "-0"):
             return False
+    for t in argv_texts:
         if t.startswith("-") and len(t) > 1 and not _CANON.match(t):
             if t not in flags and t != "--zzz":
                 return False
@@ -350,13 +386,15 @@ def classify_exc(e, flag2dest):
             dest = flag2dest.get(first, first)
             rest = m.group(2)
             for key, pat in (("expectedOneArgument", "expected one argument"), ("invalidChoice", "invalid choice"),
-                             ("invalidValue", r"invalid \S+ value"), ("notAllowedWith", "not allowed with argument")):
+                             ("invalidValue", r"invalid \S+ value"), ("notAllowedWith", "not allowed with argument"),
+                             ("ignoredExplicitArgument", "ignored explicit argument")):
                 if re.search(pat, rest):
                     d = {"outcome": stage, "err": key, "dest": dest}
                     if stage == "tomlError":
                         d["src"] = "argparse"
                     return d
-        for key, pat in (("required", "the following arguments are required"), ("unrecognized", "unrecognized arguments")):
+        for key, pat in (("required", "the following arguments are required"), ("unrecognized", "unrecognized arguments"),
+                         ("ambiguousOption", "ambiguous option")):
             if pat in msg:
                 d = {"outcome": stage, "err": key}
                 if stage == "tomlError":
@@ -435,7 +473,7 @@ def run_impl(case, dirs, flag2dest):
                             return {"outcome": "tomlFatal", "err": "decode"}
                         out2 = classify_exc(argparse.ArgumentError(None, msg), flag2dest)
                         out2["outcome"] = "tomlFatal"
-                        if "dest" in out2 or out2.get("err") in ("required", "unrecognized"):
+                        if "dest" in out2 or out2.get("err") in ("required", "unrecognized", "ambiguousOption"):
                             out2["src"] = "argparse"
                         return out2
                     # exit_on_error=True: argparse printed "rattr: error: <message>" and exited
@@ -462,17 +500,70 @@ def model_payload(case, facts):
     }
     spec = []
     sc = dict(spec_conf) if not (b and label in ("override", "pyproject")) else {}
+    said = cli_says(case, facts)
     for f in facts:
-        it = case["intent"].get(f["dest"], {})
         tv = sc.get(f["doc_key"], ABSENT) if f["doc_key"] else ABSENT
         spec.append({"dest": f["dest"], "kind": f["kind"], "default": f["default"], "choices": f["choices"],
-                     "doc_type": f["doc_type"], "cli": it.get("cli", []),
+                     "doc_type": f["doc_type"], "cli": said[f["dest"]],
                      "toml": None if tv is ABSENT else enc_tval(tv)})
     return {"argv": case["argv"], "world": world,
             "input_conf": enc_conf(case["conf"]) if case["mode"] == "dict" else None,
             "exit_on_error": case["eoe"], "spec": spec,
             "spec_override": "override" if case["cfile"] == "exists" and case["mode"] == "files" else None,
             "spec_pyproject": "pyproject" if case["mode"] == "files" and case["layout"] in ("cwd", "parent") else None}
+
+
+# ------------------------------------------------------------------ what the command line SAYS (normalised)
+
+def typed_occurrences(ref_result, facts):
+    """Reference-normalised occurrences -> dest -> [typed value per occurrence] (spec vocabulary)."""
+    by = {f["dest"]: f for f in facts}
+    out = {f["dest"]: [] for f in facts}
+    for dest, v in ref_result["occ"]:
+        f = by.get(dest)
+        if f is None:
+            continue
+        out[dest].append([v] if f["kind"] == "list" else v)
+    return out
+
+
+def cli_says(case, facts):
+    """Per option, the values the command line gives, in order.  From the reference normalisation of
+    the argv actually passed (any spelling) when that is a valid command line; for a mistaken
+    command line (which the property only requires to be diagnosed) from the generator's intent."""
+    ref = case.get("ref")
+    if ref and ref["ok"]:
+        return typed_occurrences(ref, facts)
+    return {f["dest"]: case["intent"].get(f["dest"], {}).get("cli", []) for f in facts}
+
+
+def check_normalisation(case, facts):
+    """The generator's intent vs the reference normalisation of the spelled argv. None | message."""
+    ref = case["ref"]
+    invalid = [d for d, it in case["intent"].items() if not it["cli_valid"]]
+    if invalid or case.get("structural"):
+        return None if not ref["ok"] else f"reference parser accepts a command line meant to be mistaken: {ref}"
+    if not ref["ok"]:
+        return f"reference parser rejects a command line meant to be valid: {ref}"
+    if not case["intent"] and case.get("raw_ok"):
+        return None
+    said = typed_occurrences(ref, facts)
+    for f in facts:
+        want = case["intent"].get(f["dest"], {}).get("cli", [])
+        if said[f["dest"]] != want:
+            return f"{f['dest']}: the spelled command line says {said[f['dest']]}, the generator meant {want}"
+    cvals = [v for d, v in ref["occ"] if d == "pyproject_toml_override"]
+    want_c = {"none": None, "exists": "o.toml", "missing": "missing.toml"}[case["cfile"]]
+    if (cvals[-1] if cvals else None) != want_c:
+        return f"-c: the spelled command line says {cvals}, the generator meant {want_c}"
+    if ref["free"].get("target") != "t.py":
+        return f"target: {ref['free']}"
+    return None
+
+
+def norm_of_ref(ref_result):
+    """Reference occurrences in the vocabulary of the Lean `occurrences`: [dest, text | None]."""
+    return [[d, None if v is True else str(v)] for d, v in ref_result["occ"]]
 
 
 # ------------------------------------------------------------------ independent re-statement of the spec
@@ -495,12 +586,12 @@ def py_effective(kind, default, toml, cli):
 def py_spec(facts, case, conf):
     out = {}
     conf = dict(conf)
+    said = cli_says(case, facts)
     for f in facts:
-        it = case["intent"].get(f["dest"], {})
         tv = conf.get(f["doc_key"], ABSENT) if f["doc_key"] else ABSENT
         acc = None if tv is ABSENT else py_acceptable(f["doc_type"], f["choices"], tv)
         out[f["dest"]] = {"acceptable": acc,
-                          "effective": py_effective(f["kind"], f["default"], tv if acc else None, it.get("cli", []))}
+                          "effective": py_effective(f["kind"], f["default"], tv if acc else None, said[f["dest"]])}
     return out
 
 
@@ -632,6 +723,12 @@ def _judge(case, im, spec, facts, conf, source_broken, alt_spec):
 
 # ------------------------------------------------------------------ real CLI sample
 
+def make_reference():
+    """The reference argparse parser, from the regenerated option table of the command-line parser."""
+    cli = P.make_cli_parser(exit_on_error=False)
+    return c20_argv.Reference(t_c20.option_rows(cli), t_c20.help_flags(cli))
+
+
 def cli_observe(case, dirs):
     """Run the real CLI for this case; observable projection of the effective configuration."""
     cwd = dirs.install(case)
@@ -679,7 +776,7 @@ def cli_expected(ns):
 
 # ------------------------------------------------------------------ generation
 
-def build_cases(facts, tier, rng):
+def build_cases(facts, tier, rng, sp=None, flag2dest=None):
     cases = []
     cs = {f["dest"]: cli_states(f) for f in facts}
     ts = {f["dest"]: toml_states(f) for f in facts}
@@ -793,10 +890,184 @@ def build_cases(facts, tier, rng):
     c["argv"] = [t for t in c["argv"] if t != "t.py"]
     c["structural"] = "missing-target"
     cases.append(c)
+    if sp is not None:
+        cases += spelled_cases(facts, tier, rng, sp, flag2dest, cases, decoy_for)
     return cases
 
 
-def cli_sample(facts, rng, tier):
+def spelled_cases(facts, tier, rng, sp, flag2dest, base, decoy_for):
+    """Every spelling argparse accepts, for every option (RattrModel/Argv.lean is the model side)."""
+    out = []
+    cs = {f["dest"]: cli_states(f) for f in facts}
+    ts = {f["dest"]: toml_states(f) for f in facts}
+    by = {f["dest"]: f for f in facts}
+    documented = [f for f in facts if f["doc_key"]]
+    valued = [f for f in documented if f["kind"] != "flag"]
+    thorough = tier == "thorough"
+
+    def state(table, dest, label):
+        return next(x for x in table[dest] if x[0] == label)
+
+    # (s1) twins: the cases generated so far, same groups in the same order, random spellings
+    for c in base:
+        if c.get("structural") or "_parts" not in c or c["argv"] != [t for g in c["_parts"] for t in g]:
+            continue
+        if rng.random() < (0.6 if thorough else 0.45):
+            out.append(respell(c, sp, rng))
+
+    def block_arrange(order_dests, last_dest):
+        """Short zero-argument flags in the given order, then the one-argument option (its LAST
+        occurrence; `None` = the -c group), adjacent; everything else before; target before or after."""
+        def arrange(seq, extra, target):
+            flags = {d: [g for g in seq if flag2dest[g[0]] == d] for d in order_dests}
+            used = [flags[d][-1] for d in order_dests]
+            lastg = None
+            if last_dest is not None:
+                lastg = [g for g in seq if flag2dest[g[0]] == last_dest][-1]
+            rest = [g for g in seq if not any(g is u for u in used) and g is not lastg]
+            ex = list(extra)
+            if last_dest is None:
+                lastg = ex.pop()           # the -c group is appended last by make_case
+            block = used + [lastg]
+            parts = rest + ex + block
+            parts.insert(rng.choice([0, len(parts)]), target)
+            return parts
+        return arrange
+
+    orders = sp.all_cluster_orders(3)
+    exists_envs = [("files", "exists", "cwd"), ("files", "exists", "parent"), ("files", "exists", "vcs-shadow"),
+                   ("files", "exists", "vcs"), ("files", "missing", "cwd"), ("files", "missing", "parent")]
+    k = 0
+    # (s2) the -c override in every spelling, alone and at the end of every cluster of short flags;
+    # the selected file and the decoy say different, valid things about one option
+    for form in c20_argv.Speller.SINGLE1:
+        for env in exists_envs:
+            f = valued[k % len(valued)]
+            k += 1
+            spell = lambda parts, r, form=form: sp.render(parts, r, p_cluster=0.0, p_respell=0.0, p_dd=0.2, form=form)  # noqa: E731
+            # only the -c group is forced into `form`: the other groups are absent here
+            out.append(make_case(facts, {f["dest"]: (cs[f["dest"]][0], state(ts, f["dest"], "valid"))}, env, rng,
+                                 decoy=decoy_for([f["dest"]]), spell=spell, config_flag="-c"))
+    for order in orders:
+        dests = [d for d, _ in order]
+        for attach in (False, True):
+            envs = exists_envs if thorough else [exists_envs[k % 3], exists_envs[3 + k % 3]]
+            for env in envs:
+                f = valued[k % len(valued)]
+                k += 1
+                assign = {d: (state(cs, d, "valid"), ts[d][0]) for d in dests}
+                assign[f["dest"]] = (cs[f["dest"]][0], state(ts, f["dest"], "valid"))
+                spell = lambda parts, r, attach=attach: sp.render(parts, r, p_cluster=1.0, p_respell=0.0, p_dd=0.2, attach=attach)  # noqa: E731
+                out.append(make_case(facts, assign, env, rng, decoy=decoy_for([f["dest"]]), spell=spell,
+                                     arrange=block_arrange(dests, None), config_flag="-c",
+                                     eoe=rng.random() < 0.15))
+    # (s3) every documented one-argument option with a short flag at the end of a cluster
+    for f in valued:
+        if not any(not x.startswith("--") for x in f["flags"]):
+            continue
+        pool = orders if thorough else rng.sample(orders, 4)
+        for order in pool:
+            dests = [d for d, _ in order]
+            for attach in (False, True):
+                cstates = [x for x in cs[f["dest"]] if x[0] != "absent" and (x[0] != "valid-empty-item" or not attach)]
+                for c_ in (cstates if thorough else rng.sample(cstates, min(2, len(cstates)))):
+                    t_ = rng.choice([x for x in ts[f["dest"]] if x[0] in ("absent", "valid", "valid-zero", "valid-empty")])
+                    env = rng.choice(ENVS if t_[1] is ABSENT else VISIBLE_ENVS)
+                    if env[0] == "dict" and t_[1] is ABSENT:
+                        env = ("files",) + env[1:]
+                    assign = {d: (state(cs, d, "valid"), ts[d][0]) for d in dests}
+                    assign[f["dest"]] = (c_, t_)
+                    spell = lambda parts, r, attach=attach: sp.render(parts, r, p_cluster=1.0, p_respell=0.3, p_dd=0.1, attach=attach)  # noqa: E731
+                    out.append(make_case(facts, assign, env, rng, decoy=decoy_for([f["dest"]]), spell=spell,
+                                         arrange=block_arrange(dests, f["dest"])))
+    # (s3') every option, every single-option form, against a TOML value
+    for f in documented:
+        forms = c20_argv.Speller.SINGLE0 if f["kind"] == "flag" else c20_argv.Speller.SINGLE1
+        for form in forms:
+            for c_ in cs[f["dest"]][1:]:
+                t_ = rng.choice([x for x in ts[f["dest"]] if x[2]])
+                env = rng.choice(ENVS if t_[1] is ABSENT else VISIBLE_ENVS)
+                if env[0] == "dict" and t_[1] is ABSENT:
+                    env = ("files",) + env[1:]
+                spell = lambda parts, r, form=form: sp.render(parts, r, p_cluster=0.0, p_respell=0.0, p_dd=0.15, form=form)  # noqa: E731
+                out.append(make_case(facts, {f["dest"]: (c_, t_)}, env, rng, decoy=decoy_for([f["dest"]]), spell=spell))
+    # (s4) hand-written spellings: the corners of argparse's tokeniser
+    out += handmade_cases(facts, rng, sp)
+    return out
+
+
+def handmade_cases(facts, rng, sp):
+    out = []
+    cs = {f["dest"]: cli_states(f) for f in facts}
+    ts = {f["dest"]: toml_states(f) for f in facts}
+
+    def hand(argv, says, structural=None, toml=("threshold", "valid")):
+        """argv (without -c, with its target), what it says per dest (typed values), in two environments."""
+        for env in (ENVS[1], ENVS[2], ("files", "exists", "parent")):
+            assign = {d: (("hand", list(vs), [], True), ts[d][0]) for d, vs in says.items()}
+            if toml and toml[0] not in assign:
+                assign[toml[0]] = (cs[toml[0]][0], next(x for x in ts[toml[0]] if x[0] == toml[1]))
+            c = make_case(facts, assign, env, rng, decoy=[("threshold", 77)])
+            a = list(argv)
+            if env[1] == "exists":
+                cfg = rng.choice([["-c", "o.toml"], ["--config=o.toml"], ["-co.toml"], ["--conf", "o.toml"]])
+                a = cfg + a
+            c["argv"] = a
+            c["raw_ok"] = True
+            c["spelled"] = True
+            c["spelling"] = ["hand:" + (structural or "valid")]
+            c["structural"] = structural
+            out.append(c)
+
+    # valid, but only in this spelling
+    hand(["--exclude=-x", "t.py"], {"_excluded_names": [["-x"]]})             # an attached value may look like an option
+    hand(["-x-y", "-F=-z", "t.py"], {"_excluded_names": [["-y"]], "_excluded_imports": [["-z"]]})
+    hand(["--exclude=", "-x=", "t.py"], {"_excluded_names": [[""], [""]]})
+    hand(["--threshold=-5", "t.py"], {"threshold": [-5]}, toml=("_follow_imports_level", "valid"))
+    hand(["--thresh", "-5", "t.py"], {"threshold": [-5]}, toml=("_follow_imports_level", "valid"))
+    hand(["-H=T", "t.py"], {"collapse_home": [True], "truncate_deep_paths": [True]})   # `-H=T` is the cluster -H -T
+    hand(["-H=Tf", "2", "t.py"], {"collapse_home": [True], "truncate_deep_paths": [True], "_follow_imports_level": [2]})
+    hand(["-HH", "-TrT", "t.py"], {"collapse_home": [True, True], "truncate_deep_paths": [True, True], "force_refresh_cache": [True]})
+    hand(["-f", "0", "-f3", "--follow-imports=2", "--fol", "0", "-Hf2", "t.py"],
+         {"_follow_imports_level": [0, 3, 2, 0, 2], "collapse_home": [True]})
+    hand(["-xa=b", "--exclude=c=d", "t.py"], {"_excluded_names": [["a=b"], ["c=d"]]})
+    hand(["-wall", "-osilent", "t.py"], {"_warning_level": ["all"], "stdout": ["silent"]})
+    hand(["-x", "a b", "--exclude=c d", "t.py"], {"_excluded_names": [["a b"], ["c d"]]})
+    hand(["--", "t.py"], {})
+    hand(["t.py", "--"], {})
+    hand(["-H", "--", "t.py"], {"collapse_home": [True]})
+    hand(["-x", "a", "t.py", "--"], {"_excluded_names": [["a"]]})
+    hand(["--strict", "-rT", "--", "t.py"], {"is_strict": [True], "force_refresh_cache": [True], "truncate_deep_paths": [True]},
+         toml=("_follow_imports_level", "valid"))
+    # mistakes
+    for pre in sp.ref.ambiguous_prefixes():
+        if pre.startswith("--h"):
+            continue
+        hand([pre, "zed", "t.py"], {}, "ambiguous-prefix")
+        hand([pre + "=zed", "t.py"], {}, "ambiguous-prefix")
+    hand(["--strict=1", "t.py"], {}, "explicit-argument-to-flag")
+    hand(["--collapse-home=", "t.py"], {}, "explicit-argument-to-flag")
+    hand(["--collapse=x", "t.py"], {}, "explicit-argument-to-flag")
+    hand(["-H=", "t.py"], {}, "explicit-argument-to-flag")
+    hand(["-Hz", "t.py"], {}, "cluster-with-unknown-letter")
+    hand(["-HTz", "t.py"], {}, "cluster-with-unknown-letter")
+    hand(["-Hx", "t.py"], {}, "cluster-takes-the-target-as-value")
+    hand(["t.py", "-Hf"], {}, "cluster-value-missing")
+    hand(["t.py", "-Hf", "-T"], {}, "cluster-value-missing")
+    hand(["-zH", "t.py"], {}, "unknown-cluster")
+    hand(["--", "-H", "t.py"], {}, "dd-before-option")
+    hand(["-x", "--", "a", "t.py"], {}, "dd-between-option-and-value")
+    hand(["t.py", "-H", "--"], {}, "dd-after-target-and-option")
+    hand(["t.py", "--", "u.py"], {}, "dd-then-second-positional")
+    hand(["--"], {}, "dd-alone")
+    hand(["-H", "--"], {}, "dd-alone")
+    hand(["--follow-imports=abc", "t.py"], {}, "invalid-attached-value")
+    hand(["-f7", "t.py"], {}, "invalid-attached-value")
+    hand(["-Hwbogus", "t.py"], {}, "invalid-attached-value")
+    return out
+
+
+def cli_sample(facts, rng, tier, sp=None, flag2dest=None):
     """Cases for the real CLI: every invalid-TOML class, TOML syntax error, and observable valid mixes."""
     cs = {f["dest"]: cli_states(f) for f in facts}
     ts = {f["dest"]: toml_states(f) for f in facts}
@@ -832,6 +1103,32 @@ def cli_sample(facts, rng, tier):
         for env in (ENVS[1], ENVS[2], ENVS[3], ENVS[4], ENVS[6]):
             dec = [(by[d]["doc_key"], {"stdout": "ir", "_excluded_names": ["f", "g"], "_follow_imports_level": 3}[d]) for d in m]
             out.append(make_case(facts, m, env, rng, decoy=dec))
+        if sp is None:
+            continue
+        # the same mixes through `python -m rattr` in other spellings: the -c override at the end of
+        # a cluster of short flags (attached / detached), and free re-spelling of every group
+        dec = [(by[d]["doc_key"], {"stdout": "ir", "_excluded_names": ["f", "g"], "_follow_imports_level": 3}[d]) for d in m]
+        orders = sp.all_cluster_orders(2)
+        for env in (ENVS[2], ENVS[5], ENVS[3]):
+            order = rng.choice(orders)
+            dests = [d for d, _ in order if d not in m]
+            if not dests:
+                continue
+            mm = dict(m)
+            for d in dests:
+                mm[d] = (next(x for x in cs[d] if x[0] == "valid"), ts[d][0])
+            attach = rng.random() < 0.5
+
+            def arrange(seq, extra, target, dests=dests):
+                used = [next(g for g in seq if flag2dest[g[0]] == d) for d in dests]
+                rest = [g for g in seq if not any(g is u for u in used)]
+                parts = rest + used + list(extra)
+                parts.insert(rng.choice([0, len(parts)]), target)
+                return parts
+            spell = lambda parts, r, attach=attach: sp.render(parts, r, p_cluster=1.0, p_respell=0.5, p_dd=0.2, attach=attach)  # noqa: E731
+            out.append(make_case(facts, mm, env, rng, decoy=dec, spell=spell, arrange=arrange, config_flag="-c"))
+        out.append(make_case(facts, m, rng.choice([ENVS[1], ENVS[2], ENVS[4]]), rng, decoy=dec,
+                             spell=lambda parts, r: sp.render(parts, r, p_cluster=0.8, p_respell=1.0, p_dd=0.3)))
     return out
 
 
@@ -839,7 +1136,13 @@ def cli_sample(facts, rng, tier):
 
 def run(tier, seed, build):
     res = common.Result(PID)
-    res.rule = ("every documented TOML-settable option: full product of its command-line states {absent, valid, given twice, "
+    res.rule = ("every spelling argparse accepts for every option (a twin of ~45% of the cases below re-spelled at random: --opt=value, "
+                "unambiguous long prefixes, -oVALUE, -o=VALUE, clusters of short flags ending in a flag or in an option with attached/"
+                "detached value, -- around the target; the -c override in every single form and at the end of every cluster order of "
+                "the short flags x {existing/missing -c} x {cwd, parent, vcs-shadow, vcs}; every documented short option at the end of "
+                "clusters; every option x every single form; hand-written tokeniser corners incl. mistakes: ambiguous prefixes, explicit "
+                "argument to a flag, unknown cluster letter, misplaced --) with the spec fed by the reference-argparse normalisation; "
+                "every documented TOML-settable option: full product of its command-line states {absent, valid, given twice, "
                 "invalid type, out of choice, …} x TOML states {absent, valid, each wrong type incl. bool-for-int, out of choice, …} "
                 "rotating over {explicit conf, no -c, existing -c, missing -c} x {pyproject in cwd, in the parent, shadowed by a VCS root, none}; "
                 "pairs of options (sampled in quick, full reduced product in thorough), triples (thorough), seeded random many-option cases "
@@ -848,30 +1151,48 @@ def run(tier, seed, build):
     rng = random.Random(seed)
     facts, flag2dest = option_facts()
     flags = set(flag2dest)
+    ref = make_reference()
+    sp = c20_argv.Speller(ref)
     dirs = Dirs()
     try:
         dead = probe_dead_keys(facts, dirs, flag2dest, random.Random(0))
         res.extra["documented_toml_keys_without_effect"] = dead
-        cases = build_cases(facts, tier, rng)
-        sample_all = cli_sample(facts, rng, tier)
+        cases = build_cases(facts, tier, rng, sp, flag2dest)
+        sample_all = cli_sample(facts, rng, tier, sp, flag2dest)
         cases = cases + sample_all
         kept = []
         for c in cases:
-            if in_fragment(c, flags):
-                kept.append(c)
-            else:
+            if not in_fragment(c, flags):
                 res.skipped_outside_fragment += 1
+                continue
+            # what the command line says, by the reference parser (never by rattr's own first pass)
+            c["ref"] = ref.normalise(c["argv"])
+            bad = check_normalisation(c, facts)
+            if bad:
+                res.internal_errors.append({"what": "generator intent vs reference normalisation: " + bad,
+                                            "argv": c["argv"], "canonical": c.get("canonical_argv")})
+                continue
+            kept.append(c)
         cases = kept
+        kept_ids = {id(k) for k in kept}
+        sample_all = [c for c in sample_all if id(c) in kept_ids]
         model = common.Model()
         outs = model.batch([("cli_merge", model_payload(c, facts)) for c in cases])
         res.extra["exhaustive"] = True
-        res.extra["exhaustive_scope"] = "per-option product of source states (part a); pairs/triples per tier"
+        res.extra["exhaustive_scope"] = ("per-option product of source states (part a); pairs/triples per tier; the -c override in every "
+                                         "single-option form and after every ordered selection (<=3) of the short flags (part s2)")
         for case, mo in zip(cases, outs):
             res.evaluations += 1
             im = run_impl(case, dirs, flag2dest)
             shown = {k: case[k] for k in ("argv", "conf", "decoy", "mode", "cfile", "layout", "broken", "eoe")}
             shown["conf"] = [[k, v] for k, v in case["conf"]]
             shown["decoy"] = [[k, v] for k, v in case["decoy"]]
+            if case.get("spelled"):
+                shown["spelling"] = case["spelling"]
+                shown["normalised"] = case["ref"]["occ"] if case["ref"]["ok"] else case["ref"]
+                res.count("spelled")
+                for lab in case["spelling"]:
+                    res.count("spell:" + lab.split(":")[0] + (":" + lab.split(":")[1] if lab.startswith("hand:") else ""))
             if any(it["cli"] or it["toml_given"] for it in case["intent"].values()):
                 res.nontrivial.add(common.digest(shown))
             res.sample({"case": shown, "impl": im})
@@ -899,6 +1220,10 @@ def run(tier, seed, build):
                     res.internal_errors.append({"what": "Spec.tomlSource disagrees with the harness", "case": shown,
                                                 "lean": mo["spec_source"], "python": want_label})
                     continue
+                if case["ref"]["ok"] and mo.get("norm") != norm_of_ref(case["ref"]):
+                    res.internal_errors.append({"what": "the model's tokeniser (Argv.occurrences) disagrees with the reference argparse parser",
+                                                "case": shown, "lean": mo.get("norm"), "reference": norm_of_ref(case["ref"])})
+                    continue
                 mm = mo["model"]
                 ii = {k: v for k, v in im.items() if k not in ("exc", "msg", "in_toml_error", "code")}
                 if mm != ii:
@@ -920,7 +1245,7 @@ def run(tier, seed, build):
                                        "spec": {d: s for d, s in spec.items() if d in case["intent"]}})
 
         # ---- real CLI sample: invalid TOML must end in a diagnostic; valid mixes must show the effective values
-        sample = [c for c in sample_all if in_fragment(c, flags)]
+        sample = list(sample_all)
         mouts = model.batch([("cli_merge", model_payload(c, facts)) for c in sample])
 
         def one(c):
@@ -979,7 +1304,11 @@ def run(tier, seed, build):
     finally:
         dirs.cleanup()
     res.assumptions = [
-        "argparse's tokeniser on non-canonical tokens (abbreviations, '='-joined values, clumped short flags, '--') is trusted, not modelled",
+        "argparse's tokeniser (abbreviations, '='-joined values, clusters of short flags, '--', negative-number-like and spaced words) IS modelled "
+        "(RattrModel/Argv.lean, CPython 3.12 semantics) and validated per case against a reference stdlib parser built from the regenerated "
+        "option table; still trusted: '@file' arguments (none: noFromFile), non-ASCII digits in the negative-number test",
+        "what the command line SAYS (the spec's input) is the reference parser's normalisation of the argv actually passed, cross-checked "
+        "against the generator's intent; for a mistaken command line the property only asks for a diagnostic",
         "the codec str(int)/int(str) between token text and integers is trusted (texts are canonical decimals or words int() rejects)",
         "[interp] an option given several times on the command line: last occurrence wins; list options accumulate TOML items then command-line items",
         "[interp] an explicit non-empty project_toml_conf is the TOML source (the -c file is then not consulted)",
@@ -1003,6 +1332,8 @@ def replay(path):
         c = {"argv": case["argv"], "conf": [tuple(x) for x in case["conf"]], "decoy": [tuple(x) for x in case.get("decoy", [])],
              "mode": case["mode"], "cfile": case["cfile"], "layout": case["layout"], "broken": case.get("broken"),
              "eoe": case.get("eoe", False), "intent": {}}
+        c["ref"] = make_reference().normalise(c["argv"])
+        print("reference normalisation of the command line:", json.dumps(c["ref"], default=str))
         print("implementation now:", json.dumps(run_impl(c, dirs, flag2dest), default=str))
         mo = common.Model().batch([("cli_merge", model_payload(c, facts))])[0]
         print("model:", json.dumps(mo.get("model", mo)))
